@@ -1377,6 +1377,9 @@ where
                         }
                     };
 
+                    // whether everything handed to the I/O object has also been flushed by it
+                    let mut flushed;
+
                     loop {
                         // poll response to populate write buffer
                         // drain indicates whether write buffer should be emptied before next run
@@ -1417,6 +1420,7 @@ where
                         // TODO: want to find a reference for this behavior
                         // see introduced commit: 3872d3ba
                         let flush_was_ready = inner.as_mut().poll_flush(cx)?.is_ready();
+                        flushed = flush_was_ready;
 
                         // this assert seems to always be true but not willing to commit to it until
                         // we understand what Nikolay meant when writing the above comment
@@ -1452,6 +1456,13 @@ where
 
                     // keep-alive and stream errors
                     if state_is_none && inner_p.write_buf.is_empty() {
+                        // An error response (e.g. the 400 for a malformed request) may still sit
+                        // in a buffering I/O object (TLS): do not give up the connection, and
+                        // with it those bytes, before its flush has completed.
+                        if !flushed && inner_p.error.is_some() {
+                            return Poll::Pending;
+                        }
+
                         if let Some(err) = inner_p.error.take() {
                             error!("stream error: {}", &err);
                             return Poll::Ready(Err(err));
